@@ -386,7 +386,9 @@ def rules(tier):
             # C15-da: .omn opened for appending
             ('C15.R15', _shared_rule('plumbing', 'writers_truncate')),
             # C15-eb: restore_omen warms the memo with the restored (advanced) parse tree
-            ('C15.R16', _shared_rule('plumbing', 'who_may'))]
+            ('C15.R16', _shared_rule('plumbing', 'who_may')),
+            # fix 718673a: a quit inside the last Markov level - the resumed session must not generate the level again after finishing it
+            ('C15.R17', _shared_rule('c08', 'r28_exhausted_session_restores_nothing'))]
 
 
 META = {
